@@ -68,6 +68,7 @@ type ReplayFile struct {
 	Sched    []int             `json:"sched,omitempty"`
 	Prefix   []int             `json:"prefix"`
 	Second   []interp.InputRec `json:"second_inputs,omitempty"` // for record disagreements
+	PrefixA  []int             `json:"first_prefix,omitempty"`  // for record disagreements: the other path
 	Native   *nativeResult     `json:"native_result,omitempty"`
 	SchedOnly bool             `json:"schedule_dependent,omitempty"`
 	Spec     *HarnessSpec      `json:"spec,omitempty"`
@@ -209,6 +210,8 @@ func propertyMain(id string, args []string) int {
 	validated := 0
 	replayDir := filepath.Join(verifRoot, "replays", id)
 
+	recSecond := map[string][]interp.InputRec{}
+	recFirstPrefix := map[string][]int{}
 	names := make([]string, 0, len(res))
 	for n := range res {
 		names = append(names, n)
@@ -247,15 +250,16 @@ func propertyMain(id string, args []string) int {
 		// cross-path records must agree
 		for label, vals := range hr.Records {
 			if len(vals) > 1 {
-				var ws [][]interp.InputRec
 				var vs []string
-				for v, w := range vals {
+				for v := range vals {
 					vs = append(vs, v)
-					ws = append(ws, w)
 				}
+				sort.Strings(vs)
+				a, b := vals[vs[0]], vals[vs[1]]
 				hr.Violations = append(hr.Violations, violationRec{name, interp.Violation{Label: label, Kind: "record",
-					Detail: fmt.Sprintf("paths disagree on %q: %s vs %s", label, vs[0], vs[1]), Inputs: ws[0]}})
-				_ = ws
+					Detail: fmt.Sprintf("paths disagree on %q: %s vs %s", label, clip(vs[0], 200), clip(vs[1], 200)), Inputs: a.Inputs, Prefix: b.Prefix}})
+				recSecond[name+"|"+label] = b.Inputs
+				recFirstPrefix[name+"|"+label] = a.Prefix
 			}
 		}
 		// witness validation (translator validation per path)
@@ -291,6 +295,10 @@ func propertyMain(id string, args []string) int {
 			}
 			rf := &ReplayFile{Property: id, Harness: v.Harness, Tier: tier, Kind: v.V.Kind, Label: v.V.Label,
 				Detail: v.V.Detail, Inputs: v.V.Inputs, Sched: v.V.Sched, Prefix: v.V.Prefix, Input: describeInputs(v.V.Inputs)}
+			if v.V.Kind == "record" {
+				rf.Second = recSecond[name+"|"+v.V.Label]
+				rf.PrefixA = recFirstPrefix[name+"|"+v.V.Label]
+			}
 			if hr.Spec.NoNative {
 				// schedule-dependent: report the engine's counterexample directly
 				seen[key] = true
@@ -307,7 +315,7 @@ func propertyMain(id string, args []string) int {
 				continue
 			}
 			ok, nr := confirm(np, rf)
-			if !ok && hr.Spec.Sched {
+			if !ok && (hr.Spec.Sched || hr.Spec.MapOrder) {
 				// the counterexample needs a particular goroutine schedule: the
 				// native run (one arbitrary schedule) did not hit it. It is
 				// reported from the engine's schedule, which replays by
@@ -333,6 +341,12 @@ func propertyMain(id string, args []string) int {
 			}
 			seen[key] = true
 			rf.Native = &nr
+			if hr.Spec.Sched || hr.Spec.MapOrder {
+				// replay deterministically in the engine: the native run only
+				// reproduces it when the runtime happens to pick the order
+				rf.SchedOnly = true
+				rf.Spec = &hr.Spec
+			}
 			if kf := matchKnown(known, id, rf, nr); kf != nil {
 				say("KNOWN-FINDING: property=%s %s", id, kf.What)
 				knownMatched = append(knownMatched, kf.What)
@@ -371,6 +385,13 @@ func propertyMain(id string, args []string) int {
 	status := map[int]string{0: "held", 1: "violated", 2: "inconclusive"}[exit]
 	say("RESULT property=%s status=%s wall=%.1fs", id, status, time.Since(t0).Seconds())
 	return exit
+}
+
+func clip(s string, n int) string {
+	if len(s) > n {
+		return s[:n]
+	}
+	return s
 }
 
 func firstLine(s string) string {
@@ -413,6 +434,25 @@ func replayMain(path string) int {
 		say("replay %s: harness=%s kind=%s label=%s input=[%s] (schedule-dependent, re-executed in the engine)", path, rf.Harness, rf.Kind, rf.Label, rf.Input)
 		say("engine outcome: %s %s", r.Res.Outcome, firstLine(r.Res.Detail))
 		hit := r.Res.Outcome == rf.Kind
+		if rf.Kind == "record" {
+			// re-execute the other path too: the two recorded values must differ
+			ra, err := p.workers[0].run(Job{ID: 2, Harness: rf.Harness, Prefix: rf.PrefixA, Opts: opts, Tier: rf.Tier})
+			hit = false
+			if err == nil && ra.Res != nil {
+				get := func(rs []interp.Observation) (string, bool) {
+					for _, rec := range rs {
+						if rec.Label == rf.Label {
+							return rec.Val, true
+						}
+					}
+					return "", false
+				}
+				va, oka := get(ra.Res.Records)
+				vb, okb := get(r.Res.Records)
+				say("recorded values: %s | %s", clip(va, 120), clip(vb, 120))
+				hit = oka && okb && va != vb
+			}
+		}
 		for _, v := range r.Res.Violations {
 			if v.Label == rf.Label {
 				hit = true
